@@ -98,6 +98,11 @@ class OutboxRelay(Entity):
 
         if poll_interval <= 0:
             raise ValueError(f"poll_interval must be > 0, got {poll_interval}")
+        # Simulation time is integer nanoseconds: a positive interval below one
+        # nanosecond truncates to zero, and the poll daemon would re-schedule
+        # itself at the current instant forever (the clock never advances).
+        if Duration.from_seconds(poll_interval).nanoseconds <= 0:
+            raise ValueError(f"poll_interval must be at least one nanosecond, got {poll_interval}")
         if batch_size < 1:
             raise ValueError(f"batch_size must be >= 1, got {batch_size}")
         if relay_latency < 0:
